@@ -214,6 +214,58 @@ def accept_order_job(arg):
     return rep
 
 
+def spellings_job(arg):
+    """One variable of an accepted nested module read through several import spellings in one function body: an edit of
+    the variable changes the signature (and the value) whatever the number of spellings."""
+    idx, depth, nspell = arg
+    rep = core.Report("C14")
+    rep.evaluations = 1
+    R = "sp%d" % idx
+    comps = [R] + ["s%d" % i for i in range(1, depth)] + ["settings"]
+    smod = ".".join(comps)
+    parent = ".".join(comps[:-1])
+
+    def files(limit):
+        fs = {}
+        for i in range(1, len(comps)):
+            fs["/".join(comps[:i]) + "/__init__.py"] = "# pkg\n"
+        fs["/".join(comps) + ".py"] = "LIMIT = %d\n" % limit
+        imports = ["import %s" % smod, "from %s import settings" % parent, "import %s as st_alias" % smod, "from %s import LIMIT" % smod][:nspell]
+        reads = ["%s.LIMIT" % smod, "settings.LIMIT", "st_alias.LIMIT", "LIMIT"][:nspell]
+        fs[R + "/top.py" if depth > 1 else R + "/top.py"] = (
+            "import dds\nfrom vp import vlog\n%s\n\n\ndef K():\n    vlog.hit('K')\n    return ('K', %s)\n\n\ndef main():\n    return ('main', dds.keep('/c14/spell', K))\n" % ("\n".join(imports), ", ".join(reads))
+        )
+        return fs
+
+    case = {"spellings": True, "idx": idx, "depth": depth, "nspell": nspell}
+    with core.Scratch("vp_c14s_") as td:
+        root = os.path.join(td, "code")
+        os.makedirs(root)
+        outs = []
+        for limit in (3, 13):
+            seg = {"mode": "impl", "root": root, "accept": [R], "store": {"kind": "local", "dir": os.path.join(td, "store")},
+                   "steps": [{"write": files(limit), "how": "import", "modules": [smod, R + ".top"], "entry": {"style": "eval", "module": R + ".top", "func": "main", "args_src": "()"}}]}
+            o = core.fork_call(run_segment, seg, timeout=300)
+            if isinstance(o, core.JobFailed):
+                rep.inconclusive.append("worker: %r" % (o,))
+                return rep
+            outs.append((limit, o["steps"][0]))
+    for limit, o in outs:
+        if "setup_error" in o or o["result"][0] != "ok":
+            rep.inconclusive.append("spellings job: %s" % (o.get("setup_error") or o["result"],)[0][-300:] if "setup_error" in o else "spellings job raised %r" % (o["result"][1:3],))
+            return rep
+        want = ("main", ("K",) + (limit,) * nspell)
+        rep.count("edits_on_accepted_side")
+        if pickle.loads(o["result"][1]) != want:
+            rep.violate("variable %s.LIMIT read through %d import spellings in one function: after the edit to %d the evaluation returned %s" % (smod, nspell, limit, o["result"][2][:100]), case, mechanism="variable-spellings-cancel")
+            return rep
+    if dict(outs[0][1]["syncs"][-1]) == dict(outs[1][1]["syncs"][-1]):
+        rep.violate("variable %s.LIMIT read through %d import spellings in one function: its edit did not change any signature" % (smod, nspell), case, mechanism="variable-spellings-cancel")
+    else:
+        rep.nontriv(("c14spell", depth, nspell))
+    return rep
+
+
 def refused_job(arg):
     idx, depth, n_other = arg
     rep = core.Report("C14")
@@ -323,8 +375,13 @@ def run(tier, seed):
                 idx += 1
                 jobs.append(("order", (idx, depth, order, edit)))
 
+    for depth in (1, 2, 3, 4):
+        for nspell in (1, 2, 3, 4):
+            idx += 1
+            jobs.append(("spell", (idx, depth, nspell)))
+
     def dispatch(j):
-        return {"case": case_job, "refused": refused_job, "late": late_accept_job, "order": accept_order_job}[j[0]](j[1])
+        return {"case": case_job, "refused": refused_job, "late": late_accept_job, "order": accept_order_job, "spell": spellings_job}[j[0]](j[1])
 
     results = core.fork_map(dispatch, jobs, timeout=900)
     for j, r in zip(jobs, results):
@@ -345,7 +402,9 @@ def run(tier, seed):
 def replay(payload):
     rep = core.Report("C14")
     c = payload["case"]
-    if c.get("accept_order"):
+    if c.get("spellings"):
+        rep.merge(spellings_job((c["idx"], c["depth"], c["nspell"])))
+    elif c.get("accept_order"):
         rep.merge(accept_order_job((c["idx"], c["depth"], c["order"], c["edit"])))
     elif c.get("late_accept"):
         rep.merge(late_accept_job((c["idx"], c["depth"], c["form"], c["edit"])))
